@@ -32,6 +32,7 @@ def run(ctx):
            ("RouterGen", "Gen_Router_c01_m.cfg", dict(workers=4)),
            ("RouterGen", "Gen_Router_c01_mount.cfg", dict(workers=6, timeout=1200)),
            ("RouterGen", "Gen_Router_c01_overlap.cfg" if q else "Gen_Router_c01_overlap_deep.cfg", dict(workers=6, timeout=1200, name="gen-overlap")),
+           ("RouterGen", "Gen_Router_c01_overlap3.cfg", dict(workers=6, timeout=1200, name="gen-overlap3")),     # depth 3: params merged two levels deep
            ("RouterGen", "Gen_Router_c01_sim.cfg", dict(workers=4, simulate="num=%d" % (8 if q else 150), depth=16, name="gen-sim", timeout=1200))]
     obs, _ = standard_pipeline(ctx, sub="router", mc=mc, gen=gen, trace=TRACE, random_n=400 if q else 6000, random_extra=(),
                                nontrivial=nontrivial, dedupe_key=lambda s: json.dumps([s["apps"], s["early"]], sort_keys=True),
